@@ -48,6 +48,35 @@ def nsOp (calls : String) : String :=
       | none => "N"])) (⟨[], []⟩, [])
   ";".intercalate outs ++ "|P:" ++ fmtMsgs s.adsb ++ "/" ++ fmtMsgs s.commb
 
+def parseItems (s : String) : List (Rat × Msg) :=
+  if s == "-" then [] else
+  (s.splitOn "+").filterMap (fun it => match it.splitOn "@" with
+    | [t, m] => some ((parseRat t).getD 0, m.toList)
+    | _ => none)
+
+def fmtAc (p : Msg × Ac) : String :=
+  String.ofList p.1 ++ "=" ++ ",".intercalate [toString p.2.live, fmtOpt fmtRat p.2.lat, fmtOpt fmtRat p.2.lon, fmtOpt fmtRat p.2.tpos]
+
+def fmtTracker (tr : Tracker) : String :=
+  let l := (tr.acs.map fmtAc).toArray.qsort (· < ·) |>.toList
+  if l.isEmpty then "-" else "&".intercalate l
+
+/-- `trk <lat,lon | -> <tnow~adsb~commb>;...` : state after every call -/
+def trkOp (ias : Rat → Int → Rat) (ref calls : String) : String :=
+  let r : Option (Rat × Rat) := match ref.splitOn "," with
+    | [a, b] => some ((parseRat a).getD 0, (parseRat b).getD 0)
+    | _ => none
+  let init : Tracker := { ref := r }
+  let (_, outs) := (calls.splitOn ";").foldl (fun (acc : Option Tracker × List String) c =>
+    match acc.1, c.splitOn "~" with
+    | some tr, [tnow, a, b] =>
+      match processRaw ias tr (parseItems a) (parseItems b) ((parseRat tnow).getD 0) with
+      | .val tr' => (some tr', acc.2 ++ [fmtTracker tr'])
+      | .rte => (none, acc.2 ++ ["RE"])
+      | .exc => (none, acc.2 ++ ["EXC"])
+    | _, _ => (none, acc.2 ++ ["X"])) (some init, [])
+  ";".intercalate outs
+
 /-- placeholder for `aero.mach2cas(mach, alt*ft)/kts`: filled in by Driver.Aero -/
 def iasOfMachStub (_ : Rat) (_ : Int) : Rat := 0
 
@@ -176,6 +205,7 @@ def handle (iasOfMach : Rat → Int → Rat) (ws : List String) : String :=
       let e := fun (o : Option Nat) => match o with | some n => fmtNat n | none => "''"
       joinBar [e f.di, fmtStr f.ic, fmtBool f.los, e f.pr, e f.rr, e f.rrs, fmtStr f.bds]
     | _ => "BAD-OP"
+  | ["trk", ref, calls] => trkOp iasOfMach ref calls
   | "aero" :: fn :: args =>
     let a := args.map floatOfHex
     let g := fun i => a.getD i 0.0
